@@ -574,7 +574,11 @@ func checkMemberExclusion(c *Check, what string) {
 				noneMarked := func(l Lit) bool {
 					return l.T.Op == "isnil" && l.Pos && ResultOf(l.T.Args[0], 0) != nil && p.IsCall(ResultOf(l.T.Args[0], 0), "(*app.App).GetHostsOnRecovery")
 				}
-				c.Gate(fa, call, nthKey("member", n)+":not-on-recovery", "a host marked for recovery is never a member (unless it is the master)", notMarked, noneMarked)
+				isMarks := func(t *Term) bool {
+					return t.Op == "len" && len(t.Args) == 1 && ResultOf(t.Args[0], 0) != nil && p.IsCall(ResultOf(t.Args[0], 0), "(*app.App).GetHostsOnRecovery")
+				}
+				emptyMarks := CmpLit("==", isMarks, func(t *Term) bool { return t.IsConst("0") }) // `len(marks) > 0 &&` instead of `marks != nil &&`
+				c.Gate(fa, call, nthKey("member", n)+":not-on-recovery", "a host marked for recovery is never a member (unless it is the master)", notMarked, noneMarked, emptyMarks)
 				c.Gate(fa, call, nthKey("member", n)+":marks-read", "the marks were read without error", p.NilErr("(*app.App).GetHostsOnRecovery"))
 			case "cascade":
 				c.Gate(fa, call, nthKey("member", n)+":not-cascade", "a cascade replica is never a member", func(l Lit) bool {
@@ -624,6 +628,40 @@ func checkMarkOrder(c *Check) {
 				}
 			}
 			okf := (keep || del) && len(filt.Args) == 2 && ResultOf(filt.Args[0], 0) != nil && p.IsCall(ResultOf(filt.Args[0], 0), "(app.IAppDCS).GetActiveNodes")
+			if !okf {
+				// third idiom: a hand-written keep loop — every element appended is an element of the current list and is
+				// appended only if it differs from the marked host
+				apps, good := 0, true
+				for _, a := range filt.Alts() {
+					if a.Op == "const" {
+						continue
+					}
+					ap, isCall := a.V.(*ssa.Call)
+					if !isCall || a.Op != "append" {
+						good = false
+						continue
+					}
+					el := c.eff.variadic(ap.Call.Args[1])
+					if len(el) != 1 {
+						good = false
+						continue
+					}
+					et := p.T(el[0])
+					fromList := (et.Op == "index" || et.Op == "indexaddr" || et.Op == "rangeval") && len(et.Args) > 0 && ResultOf(et.Args[0], 0) != nil && p.IsCall(ResultOf(et.Args[0], 0), "(app.IAppDCS).GetActiveNodes")
+					differs := CmpLit("!=", func(t *Term) bool { return t.V == el[0] }, func(t *Term) bool { return t.V == ssa.Value(S.Params[1]) })
+					g, _ := sfa.Gated(ap, differs)
+					if !fromList || !g {
+						good = false
+					}
+					apps++
+				}
+				if good && apps >= 1 {
+					c.Hold(sn, p.InstrPos(mk), "publish:source", "the list published is the current list, filtered (keep loop)")
+					c.Hold(sn, p.InstrPos(mk), "publish:filter", "the keep loop drops exactly the marked host")
+					c.Gate(sfa, mk, "publish:list-read", "the current list was read without error", p.NilErr("(app.IAppDCS).GetActiveNodes"))
+					continue
+				}
+			}
 			c.Req(okf, sn, p.InstrPos(mk), "publish:source", "the list published is the current list, filtered", "is "+filt.String())
 			if okf {
 				mc, ok := filt.Args[1].V.(*ssa.MakeClosure)
